@@ -453,6 +453,35 @@ func cmdOrder(args []string) {
 			pairs = len(plan)
 		}
 		rng.Shuffle(len(plan), func(a, b2 int) { plan[a], plan[b2] = plan[b2], plan[a] })
+		// suffix-alike pairs, always planted: a name under a delegated TLD next to a name whose right-most label is no TLD but
+		// ENDS in the letters of that TLD (example.al / host.internal, example.me / router.home): a rule that carries anything
+		// over from the name before - a remembered suffix, a prefix of a sorted list - shows exactly on such neighbours
+		var alike []pr
+		byName := map[string]int{}
+		for i, vn := range vocab {
+			if vn.tag == forge.GNDNS {
+				byName[string(forge.Raw(vn.raw).Body())] = i
+			}
+		}
+		nameIdx := func(sname string) int {
+			if i, ok := byName[sname]; ok {
+				return i
+			}
+			vocab = append(vocab, gname{forge.GN(forge.GNDNS, []byte(sname)).Bytes(), forge.GNDNS})
+			byName[sname] = len(vocab) - 1
+			return len(vocab) - 1
+		}
+		tlds := readTLDTable()
+		for _, lab := range []string{"internal", "local", "home", "test", "invalid", "lan", "corp", "localdomain", "intranet", "example"} {
+			for _, e := range tlds {
+				if k := e.Key; len(k) >= 2 && len(k) < len(lab) && strings.HasSuffix(lab, k) && e.Removal == "" && len(alike) < 24 {
+					alike = append(alike, pr{nameIdx("portal.example." + k), nameIdx("host." + lab)})
+				}
+			}
+		}
+		V = len(vocab)
+		plan = append(alike, plan...)
+		pairs += len(alike)
 		for len(plan) < pairs {
 			plan = append(plan, pr{rng.Intn(V), rng.Intn(V)})
 		}
